@@ -94,3 +94,72 @@ func VHOnceManyValues() {
 	}
 	vCover("once many values done")
 }
+
+type c17err struct{ code int }
+
+func (e *c17err) Error() string { return "c17" }
+
+// VHOnceResultTypes: the result types are the caller's business - an error, a nil or non-nil
+// pointer, an interface, a struct, a zero value: whatever the one invocation returns (a non-nil
+// error included) is what every caller gets, and no second function runs. Instantiations:
+// Once1[error], Once2[int, error], Once3[string, *int, error], Once1[any], Once1[struct].
+func VHOnceResultTypes() {
+	fail := vChoose("fail", 2) == 1 // the one invocation returns a non-nil error
+	var e error
+	if fail {
+		e = &c17err{vInt("code")}
+	}
+	x := vInt("x")
+	calls := 0
+	switch vChoose("inst", 5) {
+	case 0:
+		var o Once1[error]
+		r1 := o.Do(func() error { calls++; return e })
+		r2 := o.Do(func() error { calls++; return nil })
+		var got [2]error
+		for i := range got {
+			i := i
+			vGo(func() { got[i] = o.Do(func() error { calls++; return &c17err{-1} }) })
+		}
+		vAssert(vWait(), "result types: every Do call returns")
+		vAssert(r1 == e && r2 == e && got[0] == e && got[1] == e, "result types: every Do call returns the error the one invocation returned")
+	case 1:
+		var o Once2[int, error]
+		a1, e1 := o.Do(func() (int, error) { calls++; return x, e })
+		a2, e2 := o.Do(func() (int, error) { calls++; return x + 1, nil })
+		var ga [2]int
+		var ge [2]error
+		for i := range ga {
+			i := i
+			vGo(func() { ga[i], ge[i] = o.Do(func() (int, error) { calls++; return -1, nil }) })
+		}
+		vAssert(vWait(), "result types: every Do call returns")
+		vAssert(a1 == x && e1 == e && a2 == x && e2 == e, "result types: a later Do returns the first invocation's value and error")
+		vAssert(ga[0] == x && ge[0] == e && ga[1] == x && ge[1] == e, "result types: concurrent later callers too")
+	case 2:
+		var o Once3[string, *int, error]
+		p := &x
+		if fail {
+			p = nil
+		}
+		s1, p1, e1 := o.Do(func() (string, *int, error) { calls++; return "v", p, e })
+		s2, p2, e2 := o.Do(func() (string, *int, error) { calls++; return "w", &x, nil })
+		vAssert(s1 == "v" && p1 == p && e1 == e && s2 == "v" && p2 == p && e2 == e, "result types: three results of mixed types are shared")
+	case 3:
+		var o Once1[any]
+		var v any
+		if !fail {
+			v = x
+		}
+		r1 := o.Do(func() any { calls++; return v })
+		r2 := o.Do(func() any { calls++; return "other" })
+		vAssert(r1 == v && r2 == v, "result types: an interface result (nil included) is shared")
+	case 4:
+		var o Once1[c17err]
+		r1 := o.Do(func() c17err { calls++; return c17err{x} })
+		r2 := o.Do(func() c17err { calls++; return c17err{x + 1} })
+		vAssert(r1 == c17err{x} && r2 == c17err{x}, "result types: a struct result is shared")
+	}
+	vAssert(calls == 1, "result types: exactly one of the functions is invoked, exactly once")
+	vCover("once result types done")
+}
